@@ -3,6 +3,7 @@ package main
 import (
 	"encoding/json"
 	"fmt"
+	"net"
 	"net/http/httptest"
 	"os"
 	"os/exec"
@@ -74,6 +75,14 @@ func suiteV04(c *vctx) {
 			time.Sleep(10 * time.Millisecond)
 		}
 		client := sasl.NewClient(sock)
+		// a real LDAP listener served by the agent code (BER over TCP, simple bind)
+		ldapAddr := ""
+		if ln, err := net.Listen("tcp", "127.0.0.1:0"); err == nil {
+			ldapAddr = ln.Addr().String()
+			go runLDAPListener(ln.(*net.TCPListener), &ldapConfig{}, a.iface) //nolint:errcheck
+			defer ln.Close()
+		}
+		ldapWire := 0
 		users := a.users()
 		utok := vUsersTok(users)
 		names := []string{"root", "alice", "bob", "carol", "a@b", "A.b-c_d@e", "u255", "u256", "u257", "x", "nul", "bin",
@@ -195,6 +204,16 @@ func suiteV04(c *vctx) {
 				}
 				lref, _, _, _, _ := a.ref.Authenticate(cutu, p)
 				c.emit("law.C04.ldap_equals_store_for_name_up_to_at "+id, vtf(got == lref))
+				// the same bind over the wire (the BER encoding carries any bytes; an empty password would be
+				// an unauthenticated bind, which the client library refuses to send)
+				if ldapAddr != "" && p != "" && u != "" && ldapWire < 120 && len(u) < 1000 {
+					ldapWire++
+					if cn, err := ldap.DialTimeout("tcp", ldapAddr, 2*time.Second); err == nil {
+						berr := cn.Bind(u, p)
+						cn.Close()
+						c.emit("law.C04.ldap_wire_bind_equals_store_for_name_up_to_at "+id, vtf((berr == nil) == lref))
+					}
+				}
 			}
 			// LDAP bind names built from an existing user: <user>@<anything, further '@' included>
 			if r.Intn(3) == 0 {
